@@ -99,3 +99,11 @@ def nontrivial(op, res):
     if t[0] == "err" and len(t) > 2 and t[2] not in ("0", "-"):
         return True
     return False
+
+
+def classify(v):
+    """call-site classes of known findings (findlib.py); only debug-assertion panics are known for C10"""
+    import findlib
+    if v.get("profile") == "dbg":
+        return findlib.debug_class(v["op"], v["implementation"])
+    return None
